@@ -9,7 +9,7 @@ must hold nothing live (it would leak).  Every `source.next()` is an unwind poin
 import re
 
 NAME = 'tfi'
-PROPS = ['C03', 'C04', 'C07', 'C08']
+PROPS = ['C03', 'C04', 'C07', 'C08', 'C17']
 DROPPED = ('the `&mut` indirection between builder and array (R-guard); core::iter::Zip (documented behaviour: polls the destination first '
            'and does not poll the source once the destination is exhausted); into_iter() of the argument')
 
@@ -50,7 +50,7 @@ impl<T, N: ArrayLength> IntrusiveArrayBuilder<T, N> {
     f, body, n = carry(INT, IAB, 'new')
     ex.check_supported('new', body)
     g.emit_fn(Fn('new', INT, f['line'], f['sig'], 'pub fn new(array: Slots<T, N>) -> (r: Self)', body,
-                 ['array.ok()', 'array.all_dead()'], [('wf', ['C03', 'C04'], 'r.wf() && r.position == 0')], {'R-guard': 1}, n, PROPS))
+                 ['array.ok()', 'array.all_dead()'], [('wf', ['C03', 'C04', 'C07', 'C17'], 'r.wf() && r.position == 0')], {'R-guard': 1}, n, PROPS))
     # ---- extend ----
     f, body, n = carry(INT, IAB, 'extend')
     stats = {}
@@ -106,7 +106,7 @@ impl<T, N: ArrayLength> IntrusiveArrayBuilder<T, N> {
     ], stats)
     ex.check_supported('finish', body)
     g.emit_fn(Fn('finish', INT, f['line'], f['sig'], 'pub fn finish(self) -> (r: Slots<T, N>)', body,
-                 ['self.wf()', 'self.position == N::n()'], [('hands-back', ['C03', 'C04'], 'r == self.array')], stats, n, PROPS))
+                 ['self.wf()', 'self.position == N::n()'], [('hands-back', ['C03', 'C04', 'C07', 'C17'], 'r == self.array')], stats, n, PROPS))
     # ---- drop ----
     f, body, n = carry(INT, IABDROP, 'drop')
     stats = {}
@@ -116,7 +116,7 @@ impl<T, N: ArrayLength> IntrusiveArrayBuilder<T, N> {
     ], stats)
     ex.check_supported('drop', body)
     g.emit_fn(Fn('drop_impl', INT, f['line'], f['sig'], 'pub fn drop_impl(&mut self)', body, ['old(self).wf()'],
-                 [('releases-prefix', ['C03', 'C04'], 'final(self).array.ok() && final(self).array.all_dead()')], stats, n, PROPS))
+                 [('releases-prefix', ['C03', 'C04', 'C07', 'C17'], 'final(self).array.ok() && final(self).array.all_dead()')], stats, n, PROPS))
     g.raw('}\n')
     # ---- array_assume_init ----
     f, body, n = carry(INT, IAB, 'array_assume_init')
@@ -124,7 +124,7 @@ impl<T, N: ArrayLength> IntrusiveArrayBuilder<T, N> {
     body = ex.apply_rules(body, [('R-slots', r'ptr::read\(&array as \*const _ as \*const MaybeUninit<GenericArray<T, N>>\)\.assume_init\(\)', 'assume_init_read(array)')], stats)
     ex.check_supported('array_assume_init', body)
     g.emit_fn(Fn('array_assume_init', INT, f['line'], f['sig'], 'pub fn array_assume_init<T, N: ArrayLength>(array: Slots<T, N>) -> (r: GenericArray<T, N>)', body,
-                 ['array.ok()', 'array.all_live()'], [('same', ['C04', 'C07'], 'r.slots == array')], stats, n, PROPS))
+                 ['array.ok()', 'array.all_live()'], [('same', ['C04', 'C07', 'C17'], 'r.slots == array')], stats, n, PROPS))
 
     # ---- try_from_iter ----
     text = g.src('src/lib.rs')
